@@ -78,7 +78,13 @@ func runMutant(repo string, m Mutant, secs int) (bool, string) {
 	}
 	mod := strings.Replace(string(src), m.Old, m.New, 1)
 	overlay := map[string][]byte{path: []byte(mod)}
-	prog, err := loadProgram(repo, pkgPatternsFor(stripPrefixes(m.Units), nil), overlay, filepath.Join(verifRoot, "libspec"))
+	patterns := pkgPatternsFor(stripPrefixes(m.Units), nil)
+	for _, u := range m.Units {
+		if strings.HasPrefix(u, "globalwrites:") {
+			patterns = []string{"./..."}
+		}
+	}
+	prog, err := loadProgram(repo, patterns, overlay, filepath.Join(verifRoot, "libspec"))
 	if err != nil {
 		return false, "mutant does not load: " + trunc(err.Error(), 300)
 	}
